@@ -18,6 +18,8 @@ NAME = "optsim"
 SIM_UNIT = "solver invocations (trials)"
 BUDGET = {"C08": {"quick": {"runs": 3500, "wall": 85}, "thorough": {"runs": 60000, "wall": 1800}},
           "C07": {"quick": {"runs": 2000, "wall": 85}, "thorough": {"runs": 30000, "wall": 1800}}}
+ISOLATE = "chunk"       # every chunk of runs in a forked child of a pristine worker: what a run sees of the process is a
+                        # deterministic function of the runs before it in the same chunk (see runner.run_history_iso)
 SHRINK_LISTS = ("faults", "ops")
 PROBES = {
     "C08": ["call:accept-first", "call:reject-then-accept", "call:exhausted", "call:raise-first-trial",
